@@ -265,6 +265,63 @@ class C05:
                     self.oracle_failures.append({"commands": [[a.decode("latin-1") for a in cmd] for cmd in cmds], "segments": [hx(x) for x in segs], "tag": "pubsub",
                                                  "impl": got, "want": want, "why": "SUBSCRIBE-family pipeline: got %s (%s), expected %s" % (got, extra, want)})
 
+    def special_replies(self, r):
+        """(i) blocking pops that must answer at once: on a key of the wrong type (an error reply, not a wait) and on a
+        non-empty list; (ii) replies larger than the socket buffers (partial writes): the bytes must come back exactly;
+        (iii) the raw inline `PING` inside pipelines, in every two-way split"""
+        self.fresh()
+        c = self.srv.client(timeout=4.0)
+        for cmd in ([b"SET", b"str", b"v"], [b"SADD", b"set", b"a"], [b"RPUSH", b"lst", b"x", b"y"]):
+            c.cmd(*cmd)
+        for name in (b"BLPOP", b"BRPOP"):
+            for key, want in ((b"str", "e"), (b"set", "e"), (b"lst", "a")):
+                self.rep.evaluations += 1
+                t0 = time.time()
+                try:
+                    rp = c.cmd(name, key, b"2", timeout=1.5)
+                    got = rp[0]
+                except (Closed, TimeoutError, ProtocolError) as e:
+                    got = type(e).__name__
+                    c.close()
+                    c = self.srv.client(timeout=4.0)
+                self.rep.nontrivial(("blocking-immediate", name, want, got == want))
+                if got != want:
+                    self.oracle_failures.append({"commands": [[name.decode(), key.decode(), "2"]], "segments": [], "tag": "blocking-immediate", "impl": [got],
+                                                 "why": "%s %s 2 on a %s must be answered at once with %s; got %s after %.2fs" % (name.decode(), key.decode(), "wrong-type key" if want == "e" else "non-empty list",
+                                                                                                                     "an error" if want == "e" else "the element", got, time.time() - t0)})
+        c.close()
+        # large replies
+        big = bytes((i * 131 + 7) % 251 for i in range(3 * 1024 * 1024))
+        c = self.srv.client(timeout=20.0)
+        c.cmd("SET", "big", big)
+        for n in (2, 3):
+            self.rep.evaluations += 1
+            c.send_raw(enc([b"GET", b"big"]) * n + enc([b"PING"]))
+            ok, why = True, ""
+            try:
+                for i in range(n):
+                    rp = c.read_reply(timeout=20.0)
+                    if rp != ("b", big):
+                        ok, why = False, "reply %d of %d x GET big (3 MiB) differs from the stored value (type %s, %d bytes)" % (i + 1, n, rp[0], len(rp[1]) if len(rp) > 1 and isinstance(rp[1], bytes) else -1)
+                        break
+                if ok and c.read_reply(timeout=10.0) != ("s", b"PONG"):
+                    ok, why = False, "PING after %d large replies not answered with PONG" % n
+            except (Closed, TimeoutError, ProtocolError) as e:
+                ok, why = False, "reply stream broke after large replies: %s %s" % (type(e).__name__, str(e)[:80])
+            self.rep.nontrivial(("large-replies", n, ok))
+            if not ok:
+                self.oracle_failures.append({"commands": [["GET", "big"]] * n + [["PING"]], "segments": [], "tag": "large-replies", "why": why})
+                c.close()
+                c = self.srv.client(timeout=20.0)
+        c.close()
+        # inline PING in pipelines, every two-way split (and byte at a time); compared with the model like any pipeline
+        self.fresh()
+        for data, cmds in ((b"PING\r\n" + enc([b"ECHO", b"hi"]), [[b"PING"], [b"ECHO", b"hi"]]),
+                           (enc([b"ECHO", b"a"]) + b"PING\r\nPING\r\n" + enc([b"ECHO", b"b"]), [[b"ECHO", b"a"], [b"PING"], [b"PING"], [b"ECHO", b"b"]])):
+            for cut in range(1, len(data)):
+                self.run_pipeline(cmds, [data[:cut], data[cut:]], "inline-ping")
+            self.run_pipeline(cmds, [data[i:i + 1] for i in range(len(data))], "inline-ping")
+
     def matrix(self, r, tier):
         """every dispatched command name x {no args, too many args, a key of each type}: exactly one reply each"""
         src = open(os.path.join(REPO, "src", "network", "server.rs"), encoding="utf-8", errors="replace").read()
@@ -336,6 +393,7 @@ def main(tier, seed):
         c.pipelines(r.fork("valid"), 140 * scale)
         c.malformed(r.fork("bad"), 40 * scale)
         c.pubsub_pipelines(r.fork("pubsub"))
+        c.special_replies(r.fork("special"))
         c.matrix(r.fork("matrix"), tier)
     finally:
         c.close()
